@@ -856,25 +856,22 @@ func cases(thorough bool) (all []Case, skipped int) {
 			add(c)
 		}
 	}
-	// slice 1: every (directive set, log state, upstream menu 0..3), downstream menu rotating
+	// slice 1: every (directive set, log state), tree menus rotating, 3 repetitions
 	for k, ds := range dirs {
 		for l, log := range logs {
-			for ui := 0; ui < 4; ui++ {
-				if log == "none" && ui > 0 {
-					continue
-				}
-				reps := 2
-				if log == "updated" || (k+ui)%3 == 0 {
-					reps = 3
-				}
-				put(mk(ui, (k+l+ui)%4, ds, log, reps))
-			}
+			put(mk((k+l)%4, (k+2*l+1)%4, ds, log, 3))
 		}
 	}
-	// slice 2: every (directive set, downstream menu 0..5), plain log, upstream menu rotating
+	// slice 2: every (directive set, upstream menu 0..3), one log entry, downstream menu rotating
+	for k, ds := range dirs {
+		for ui := 0; ui < 4; ui++ {
+			put(mk(ui, (k+ui)%4, ds, "plain", 2))
+		}
+	}
+	// slice 3: every (directive set, downstream menu 0..5), one log entry, upstream menu rotating
 	for k, ds := range dirs {
 		for di := 0; di < 6; di++ {
-			put(mk((k+di)%4, di, ds, "plain", 2))
+			put(mk((k+di+1)%4, di, ds, "plain", 2))
 		}
 	}
 	return
